@@ -616,9 +616,15 @@ def run_case(ch: Choices, params: dict) -> dict:
             # the user edits the module's file in place (same number of lines) and re-runs
             # it: every definition of that module is created anew from the edited source
             history.append((("edit", pool[pi][0]), "edit", 0))
-        if again == 1 and op_raw == 4 and len(history) > 1 and hasattr(mods[pool[pi][0]], "NCT"):
-            # the user rebinds a Python variable that a comptime type argument reads
+        if again == 1 and op_raw >= 3 and len(history) > 1 and hasattr(mods[pool[pi][0]], "NCT"):
+            # the user rebinds a Python variable that a comptime type argument reads; the
+            # definition that depends on it is compiled right before and right after
+            ts = next((j for j, (m_, n_) in enumerate(pool) if m_ == pool[pi][0] and n_ == "tsize"), None)
+            if ts is not None:
+                history.append((ts, "compile_function", 0))
             history.append((("rebind", pool[pi][0]), "rebind", 0))
+            if ts is not None:
+                history.append((ts, "compile_function", 0))
         history.append((pi, op, again))
     # once the faults stop: a final round over (up to 5 drawn) definitions
     order = ch.shuffle(list(range(len(pool))), "final_order")[:5]
